@@ -32,6 +32,9 @@ pub fn arr_docs() -> Vec<Value> {
         json!({"l♭":[x(), y()], "s":"t"}),   // 9 root scalar
         json!({"l♭":[x()]}),                 // 10 remove y
         json!({"l♭":[x(), z(), y()]}),       // 11 insert z in the middle
+        json!({"s":"a"}),                    // 12 l absent, root scalar a
+        json!({"s":"b"}),                    // 13 l absent, root scalar b
+        json!({"l♭":[x(), y()], "s":"u"}),   // 14 root scalar u
     ]
 }
 
